@@ -11,6 +11,8 @@ import (
 	"errors"
 	"fmt"
 
+	"github.com/multiformats/go-multihash"
+
 	"github.com/trustbloc/sidetree-core-go/pkg/api/operation"
 	"github.com/trustbloc/sidetree-core-go/pkg/canonicalizer"
 	"github.com/trustbloc/sidetree-core-go/pkg/encoder"
@@ -130,10 +132,11 @@ func (p *Parser) validateMultihash(mh, alias string) error {
 	}
 
 	// the digest has to have the length that the named algorithm produces (the multihash framing only says how
-	// many bytes follow)
+	// many bytes follow); this goes for every algorithm that may be configured, not only for those this library
+	// computes itself
 	if decoded, err := hashing.GetMultihash(mh); err == nil {
-		if h, e := hashing.GetHashFromMultihash(uint(decoded.Code)); e == nil && len(decoded.Digest) != h.Size() {
-			return fmt.Errorf("%s has a digest of %d bytes, the algorithm produces %d", alias, len(decoded.Digest), h.Size())
+		if size, ok := multihash.DefaultLengths[decoded.Code]; ok && size > 0 && len(decoded.Digest) != size {
+			return fmt.Errorf("%s has a digest of %d bytes, the algorithm produces %d", alias, len(decoded.Digest), size)
 		}
 	}
 
